@@ -12,1201 +12,1353 @@ Definition show_fres (r : fres) : string :=
   end.
 Definition check (rs : list rune) : string := digest (show_fres (format_res rs)).
 Definition full (rs : list rune) : string := show_fres (format_res rs).
-Eval vm_compute in ("<<<M320>>>" ++ check (runes_of_ascii "packet
-    /// triple
-    a1 { @rightPad ( ' ' ) @tag( 255
-)
-@lengthOf( zchar ) string MetaDataX	@calculatedFrom( ""CRC32"" ) // a // b
-`crlf
-line` ,u8 A @lengthOf( charz
-    ) ,
-    body ,@rightPad
-    ( '0'	)@lengthOf( charz ) match repeatCount as
-    Z9_ { 0123456789 : metadata // @lengthOf(
-,""" ++ [233]%N ++ runes_of_ascii "t" ++ [233]%N ++ runes_of_ascii """ : float  ,// packet A { u8 x, }
-""1"": Logon ,// " ++ [27880; 37322]%N ++ runes_of_ascii "
-},
-x_y_z`" ++ [233]%N ++ runes_of_ascii "`//x
-, @calculatedFrom(	""1"")match Header  as body
-    { 4294967296
-// @lengthOf(
-// @lengthOf(
-: MetaDataX
-,
-""abc"" //x
-: packetx
-    }
-, x_y_z @calculatedFrom( ""\" ++ [233]%N ++ runes_of_ascii """ ),i64_  @calculatedFrom(""abc"")`
-`,
-@rightPad //	t
-(
-)
-    //	t
-    char
-    float
-@lengthOf(	trueish )
-, @tag(42 ) @leftPad ( '\x00' ) @calculatedFrom(	""\n"") repeat string
-tag, //x
-} packet
-tag { repeat T u `
-` , string u128 @calculatedFrom( // `tick` ""quote"" 'q'
-""packet"" )`u8 x,` ,
-// trailing space 
-//x
-repeat
-    f64
-stringy `" ++ [233]%N ++ runes_of_ascii "` , u32 leftPad  @lengthOf(float ) , uint32	i8i8
-@lengthOf( f32a
-) , int@calculatedFrom( """ ++ [233]%N ++ runes_of_ascii "t" ++ [233]%N ++ runes_of_ascii """ )
-    ,
-    // c
-    @calculatedFrom( ""\n""
-) @leftPad
-    ( '\x00') @rightPad
-    ()
-    repeat
-pack  `// not a comment` , @calculatedFrom( ""1""	)
-    char[]  string_
-,f64 calculatedFrom
-    @lengthOf(	pack)  `tab	here`,@tag(00 ) int8 tag
-    ,
-} options { f32a
-= ""a	b"" _x = false ; _x = '0' o= false /// triple
-} packet falsey
-    /// triple
-    { @tag(
-    // trailing space 
-    007 ) string falsey,
-i64_
-@lengthOf(crc),repeat // c
-u128 body// packet A { u8 x, }
-, char[ 00]roots,/// triple
-metadata @lengthOf(packetx // `tick` ""quote"" 'q'
-)
-    `
-`	,// trailing space 
-string_
-BodyLength, @calculatedFrom(
-""it's"" ) repeat matchKey ,
-metadata
-    @calculatedFrom( ""abc""
-)// @lengthOf(
-,
-@tag( 255 )repeat
-Pad
-    {
-char[] packetx ,repeat o { int16 charz
-    // packet A { u8 x, }
-    ,packetx {
-i8
-//
-// packet A { u8 x, }
-zchar ,} ,char[10 //x
-]x
-, repeat zchar[ 0123456789 ]
-pack , // c
-} ,	int ,
-i8 asx ,
-}
-,}
-packet leftPad
-    { @tag(255
-    /// triple
-    )repeat uint16 msg_type  ,
-    // c
-    f32  trueish @calculatedFrom("""" )	`two words` // `tick` ""quote"" 'q'
-, @leftPad( '\x00' ) @lengthOf( leftPad
-) // a // b
-@lengthOf( asx // a // b
-)
-    //	t
-    zchar[ 1] roots @calculatedFrom(
-""abc""
-) ,pack @lengthOf(
-Z9_ ), @tag(
-65535) @lengthOf(Header
-    ) // c
-f64 tag , @tag( 1
-)repeat
-    u8x, match stringy// c
-as x { ""it's"" // " ++ [27880; 37322]%N ++ runes_of_ascii "
-: Z9_ ,7 : u128 ,
-""// no comment"" :trueish, 00
-:
-    //	t
-    f32a ,
-    [3,  1, 00]:	pack,""" ++ [28040; 24687]%N ++ runes_of_ascii """
-    // trailing space 
-    : options1	,
-// `tick` ""quote"" 'q'
-//x
-} ,
-repeat // `tick` ""quote"" 'q'
-u128 { repeat
-crc
-{ int16	int ,  }
-// c
-// @lengthOf(
-, }
-    // @lengthOf(
-    , @leftPad ( ' '  ) // trailing space 
-repeat
-zchar[ 255 ]
-// " ++ [128512]%N ++ runes_of_ascii " emoji
-// `tick` ""quote"" 'q'
-int `crlf
-line` ,@tag( 1 ) Logon roots
-    `// not a comment` , }
-")).
-Eval vm_compute in ("<<<M1859>>>" ++ check (runes_of_ascii "packet
+Eval vm_compute in ("<<<M1842>>>" ++ check (runes_of_ascii "
+options{
+    // c1
+	LittleEndian  // c2a
+	// c2b
+  = true
+	    // c4
+  ; 
+    // c5
+StringPrefixLenType
+// c6
+    = // c7
+  u8 ;// c9
+    ArrayPrefixLenType  // c10a
 
-lengthOf
+	// c10b
+  	=
+	// c11
+    u8 
+      // c12
+    ;  // c13
+		FixedStringPadFromLeft = // c15a
 
-    {
-	@tag(
-65535
-/// triple
-  //	t
-    )
-@tag( 	 //	t
-  3	)
-@tag(
-0123456789
+  // c15b
+true // c16a
+// c16b
+  ;	FixedStringPadChar  // c18
+  	=  // c19
+	'0' 	 // c20a
 
-    )
-options1	@calculatedFrom(
+// c20b
+	  ;  
+  // c21
+		}	// c22a
+		// c22b
+    	packet 
+      // c23
+  Logon
+// c24
+  {// c25a
 
-""abc"" 
-)
-	,  @rightPad	(
-	'0'
-    )
+  // c25b
+	repeat 	 // c26
+	i8
+Ref  // c28
+	, 	 // c29
+	@rightPad	// c30
+	( // c31
+    	'0' 	 // c32a
+	  // c32b
+) char[ 	 // c34a
 
-    falsey	@lengthOf( a1
-) , 
-@lengthOf( Pad
+// c34b
 
-    )
-body 
-@calculatedFrom(  // " ++ [128512]%N ++ runes_of_ascii " emoji
+8 	 // c35a
+// c35b
+	] // c36a
+    // c36b
+  msgKind 
+, 	 // c38
+    repeat	// c39
 
-	""packet"" 
-)	// trailing space 
-,  }	packet
-    int
-{
-	string
-
-    Foo
-
-    @calculatedFrom( ""CRC32"" 
-) ,
-
-    }
-    root 
-
-// trailing space 
-    //	t
-  packet  uint8x 
-{
-} 
-root
-    packet
-    len {  x_y_z
-
-_x ,
-
-BodyLength  rootA
-	    /// triple
-//
-		,
-match
-
-f32a as
-	Logon{
-
-    [ 
-""a\""b"", """ ++ [28040; 24687]%N ++ runes_of_ascii """,
-	""" ++ [128512]%N ++ runes_of_ascii """ ,  65535
-, 00  ,4294967296
-
-    ,  """"
-
-    ,
-	""abc""
-    ]
-    :  roots	,  [ 00
-]  :  A
-,
-[
-65535 
-	// a // b
-    // trailing space 
-  , 
-// trailing space 
-		// " ++ [128512]%N ++ runes_of_ascii " emoji
-65535	,
-""""
+InOrderid72// c40
+	{
+    u8 
+// c42
+    Side2 // c43
+    , 	 // c44
+uint32 
+    // c45
+  Qty 
+    // c46
+    	, 	 // c47
+	repeat  // c48
+InPrice27	// c49
+{// c50a
+// c50b
+    	repeat
+char[ 	 // c52a
+	// c52b
+4
+	// c53
 ]
-    // c
-	  // packet A { u8 x, }
-	:  
-      // " ++ [128512]%N ++ runes_of_ascii " emoji
+    // c54
 
-	// trailing space 
-pack 
+Acct  // c55a
+
+// c55b
+	  ,	// c56
+    u64
+
+    sym // c58
+  	, 
+	    // c59
+  }	,
+    zchar[// c62
+  4// c63a
+  // c63b
+  	]  // c64
+  clOrdID 	 // c65
 ,
+    int16  // c67
+lastPx
 
-}  
-      // trailing space 
-  ,
+// c68
+	, 	 // c69
+InAcct22 
+	// c70
+  {
+        // c71
+      repeat char[
 
-    repeat  Pad  `say ""hi""`
+3 // c74
+	  ]	// c75a
+
+// c75b
+  	OrderId // c76a
+// c76b
+
+,// c77a
+// c77b
+      } 
+// c78
+  	, 
+	// c79
+	} 	 // c80a
+
+// c80b
+    ,	// c81
+  int64
+	    // c82
+  Px  // c83
+, }  // c85
+packet // c86a
+
+	// c86b
+    	Fill // c87
+    {// c88a
+  // c88b
+uint16 Qty	// c90
+    	,  // c91
+    repeat 	 // c92a
+	  // c92b
+    char[
+// c93
+	  1 	 // c94a
+	// c94b
+
+  ] 	 // c95a
+    // c95b
+  Flags 
+        // c96
+    	,  
+  // c97
+		i8  // c98a
+	// c98b
+
+Ref
+        // c99
+
+,// c100
+}	// c101
+	packet  // c102
+Logout
+// c103
+{
+	// c104
+@leftPad 	 // c105
+  ( 
+// c106
+    '0'  
+      // c107
+)	// c108a
+
+// c108b
+char[	// c109a
+
+	// c109b
+  3 
+// c110
+
+  ] x
+
+, 	 // c113a
+    // c113b
+		int8
+
+    // c114
+
+f1	// c115a
+// c115b
+
+,	// c116a
+    // c116b
+    Logon 
+// c117
+	,
+// c118
+    uint16 venue
+, 
+    // c121
+  zchar[
+	// c122
+	2 
+    // c123
+	]  // c124
+		Px // c125a
+	// c125b
+    , }// c127a
+		// c127b
+packet // c128
+
+  Reject // c129
+  {
+
+// c130
+    	}
+
+root 	 // c132
+  packet 	 // c133
+    	Leg 
+// c134
+  	{// c135a
+// c135b
+	  Fill // c136a
+// c136b
+    ,  // c137
+u16// c138a
+  // c138b
+    	msgKind 
+
+// c139
+	,// c140
+	match // c141
+    	msgKind// c142
+	  as
+        // c143
+  Body 
+        // c144
+	  { 
+
+    // c145
+	  [
+	182 
+// c147
+	,
+	83 	 // c149
+  ]// c150a
+    	// c150b
+  : 
+    // c151
+		Fill // c152
+, // c153
+    199
+:
+
+    Reject , 
+	// c157
+	137	// c158a
+
+// c158b
+	:// c159a
+  // c159b
+  Logout ,
+	35 	 // c162
+
+:// c163a
+// c163b
+
+Logon,// c165
+	}	// c166
+, // c167a
+	// c167b
+	u32
+// c168
+  lastPx	@calculatedFrom( // c170
+  ""CRC32"" 	 // c171
+
+	) 
+  // c172
 
 , 
-/// triple
-	a1 calculatedFrom ,
-@lengthOf(
-	stringy
-	)
-    char[]
+	    // c173
 
-As
-    @calculatedFrom(
-
-""\" ++ [233]%N ++ runes_of_ascii """)
-
-    ,zchar[ 0123456789 ] Z9_
-@lengthOf( repeatCount ) // packet A { u8 x, }
-
-  `a\`
-
-    ,repeat	// `tick` ""quote"" 'q'
-    	string	lengthOf
-, //x
-	u8
-    falsey	@calculatedFrom(  ""a\\"")
-	,@calculatedFrom(""it's""
-)string 
-calculatedFrom @lengthOf( MetaDataX
-	)
-	,}
-")).
-Eval vm_compute in ("<<<M134>>>" ++ check (runes_of_ascii "packet // " ++ [128512]%N ++ runes_of_ascii " emoji
-x{
-    //x
-    lengthOf @calculatedFrom(""abc"")
-`u8 x,`
-    ,
-@rightPad( )
-//x
-// @lengthOf(
-float32 Packet @lengthOf( falsey ) ,	char[ 10] falsey , @tag( 3  ) repeat zchar[
-    4294967296 ] repeatCount ,repeatCount`say ""hi""` , int16 u128 // `tick` ""quote"" 'q'
-,
-char[ 3
-] crc
-@calculatedFrom( ""x y"" )
-, // trailing space 
-@leftPad
-    (
-    // " ++ [27880; 37322]%N ++ runes_of_ascii "
-    '\x00' )	match chars as i8i8 {
-    42 : charz// trailing space 
-,}
-, }  options {	} MetaData metadata { char[ 4294967296 ] i8i8	,
-    float
-    rootA , i64
-    packetx // " ++ [27880; 37322]%N ++ runes_of_ascii "
-, i8 // " ++ [27880; 37322]%N ++ runes_of_ascii "
-roots `crlf
-line`
-    ,
-    tag i64_  , uint8 Pad `" ++ [233]%N ++ runes_of_ascii "`
-, }root packet Header{
-u64 options1  `two words`
-    , @calculatedFrom(""a\\"" // trailing space 
-) // " ++ [128512]%N ++ runes_of_ascii " emoji
-i32 //	t
-x_y_z	@calculatedFrom( ""a\""b"")`tab	here` , match
-A as len { [ ""CRC32"" // " ++ [128512]%N ++ runes_of_ascii " emoji
-,""it's""  ] //	t
-: Z9_ ""a	b"" :
-    o ,
-} , match asx
-as pack {0 :	x_y_z , }
-    , char[] i64_ `{ , }`
-,
-    }
-MetaData stringy
-{ // trailing space 
-lengthOf
-// `tick` ""quote"" 'q'
-//	t
-o, string//
-u8x , f32 string_ `doc` ,}
-")).
-Eval vm_compute in ("<<<M70>>>" ++ check (runes_of_ascii "packet pack { @lengthOf(
-Foo
-    // c
-    )
-    asx @lengthOf( _x ) /// triple
-, u8	x_y_z `two words` ,repeat
-    zchar[0
-    ] roots `
-`
-    // `tick` ""quote"" 'q'
-    , lengthOf @calculatedFrom( ""abc""
-) ,
-@tag( 3 ) @rightPad	( ' ')@calculatedFrom(
-""1""
-//x
-// " ++ [27880; 37322]%N ++ runes_of_ascii "
-)
-repeat uint64 i64_ // trailing space 
-`say ""hi""` // @lengthOf(
-,	@tag( 007 ) match roots as float {	""a	b""
-    : lengthOf,
-    [1, // @lengthOf(
-""\n""
-,
-""a\""b"" , ""\" ++ [233]%N ++ runes_of_ascii """ ,  ""1"",
-    42 ]: msg_type, """ ++ [128512]%N ++ runes_of_ascii """: Foo} ,T//x
-{
-    match
-Header
-as trueish
-{ [
-// `tick` ""quote"" 'q'
-// @lengthOf(
-0 , 3// @lengthOf(
-, ""{,}"" ,
-""1"" ,
-00  ,
-0123456789
-,
-    ""// no comment"" ]
-:As
-    , }
-    , } , repeat char[
-    10
-]
-o `
-`
-, @calculatedFrom(
-    //
-    ""`tick`"" //x
-) repeat crc {
-    repeatCount o ,
-    u8x
-As, } ,
-} packet pack{@calculatedFrom( """ ++ [233]%N ++ runes_of_ascii "t" ++ [233]%N ++ runes_of_ascii """ )  u32 f32a
-,
-}
-    MetaData float
-{u32 options1 , }
-packet
-f32a { }
-")).
-Eval vm_compute in ("<<<M280>>>" ++ check (runes_of_ascii "packet	crc{@lengthOf( stringy// a // b
-) @leftPad (
-'0'
-    ) @calculatedFrom(
-""packet"" )
-repeat char[
-    // c
-    3]  i64_ // a // b
-, match
-    options1	as o { 255 :msg_type
-,
-    ""\n"": MetaDataX , 42: msg_type """ ++ [128512]%N ++ runes_of_ascii """
-    : lengthOf,""// no comment"" :falsey , }
-/// triple
-// trailing space 
-, @leftPad( )
-    @lengthOf( A
-    ) @calculatedFrom( ""x y"" ) uint32// a // b
-charz `doc`, len ,@calculatedFrom( ""// no comment"" ) match _x
-    //x
-    as i64_	{ 65535
-    :
+}// c174a
+  	// c174b")).
+Eval vm_compute in ("<<<M1650>>>" ++ check (runes_of_ascii "MetaData Logon {
+    zchar[7] BodyLength,
+    char Header,
     // @lengthOf(
-    u8x , } ,
-char[]
-    a1 // @lengthOf(
-, Foo { u8x{ char[]
-Logon
-    `// not a comment`	,}, match metadata as u128 { // trailing space 
-42 : u8x
-, 65535 : f32a
-    } //x
-, asx// " ++ [128512]%N ++ runes_of_ascii " emoji
-@lengthOf( matchKey  ) ,} , roots @calculatedFrom( // packet A { u8 x, }
-""a\""b"" )
-,	zchar[
-7] int	, repeat pack	trueish ,
-    }
-")).
-Eval vm_compute in ("<<<M354>>>" ++ check (runes_of_ascii "options {
-} packet u8x{ string uint8x@calculatedFrom(""{,}"" )	`crlf
-line`	,} MetaData falsey{
-    Logon packetx `tab	here` , } root packet o
-{ falsey@calculatedFrom(
-//x
-// " ++ [27880; 37322]%N ++ runes_of_ascii "
-""" ++ [28040; 24687]%N ++ runes_of_ascii """ ) ,	@tag(0123456789) // `tick` ""quote"" 'q'
-char[
+    int8 x_y_z `u8 x,`,
+    i32 falsey,//
+    int16 lengthOf `two words`,
+}
+
+root packet options1 {
+    repeat A BodyLength,
+    metadata {
+        u64 calculatedFrom ``,
+    },
+    body {
+        i16 matchKey,
+        uint16 packetx `// not a comment`,
+        a1 ``,
+        repeat packetx,
+    },
+    body u8x `a\`,
+    @tag(10)
+    @tag(00)
+    // c
+    @rightPad('\x00')
+    repeat tag {
+        i16 u `" ++ [233]%N ++ runes_of_ascii "`,
+    },
+    // a // b
+    // c
+    @lengthOf(u)
+    @calculatedFrom(""" ++ [128512]%N ++ runes_of_ascii """)
+    i16 falsey,
+    f32a @lengthOf(uint8x) `it's`,
+    asx @lengthOf(Header) `two words`,
     // `tick` ""quote"" 'q'
-    0123456789
-]	u128@calculatedFrom(
-""{,}"" ) ,
-    @tag(
-    00)
-@lengthOf( stringy
-) @tag( 4294967296
-)  rootA Header,  @lengthOf(As
-    )
-    repeat leftPad `// not a comment`// c
-, i8 leftPad @calculatedFrom( """" ) , @tag( 10
-) zchar[ 007
-] packetx
-@lengthOf( // packet A { u8 x, }
-u8x )	`" ++ [28040; 24687; 31867; 22411]%N ++ runes_of_ascii "` ,
-}packet	options1 {
-//	t
-// trailing space 
-falsey// packet A { u8 x, }
-{ //	t
-zchar[ 3
-    ]// " ++ [128512]%N ++ runes_of_ascii " emoji
-roots
-//
-// a // b
-,
-    u32 Header // c
-,
-} ,// a // b
-}")).
-Eval vm_compute in ("<<<M1779>>>" ++ check (runes_of_ascii "// top
-    root 	 // c0
+    @lengthOf(A)
+    @lengthOf(int)
+    @calculatedFrom(""1"")
+    char[] uint8x,
+    x_y_z @lengthOf(Foo) `crlf
+    line`,
+}
 
-	packet 	 // c1
-	_x  // c2
-    { 	 // c3
-    match  // c4
-	  Foo 	 // c5
-
-as// c6
-  Z9_ 	 // c7
-{// c8
-    ""a	b"" 	 // c9
-:	// c10
-  Pad 	 // c11
-    , // c12
-}  // c13
-  ,  // c14
-      repeat 	 // c15
-x // c16
-	`line1
-line2` // c17
-      ,// c18
-@rightPad  // c19
-
-  (	// c20
-' '  // c21
-)	// c22
-  @calculatedFrom(  // c23
-  ""a\\"" // c24
-    )  // c25
-      metadata // c26
-    MetaDataX	// c27
-	, 	 // c28
-    @tag( 	 // c29
-
-  0  // c30
-
-)	// c31
-  	Logon// c32
-		int 	 // c33
-      ``	// c34
-
-,// c35
-    	}	// c36
-	options 	 // c37
-	  { 	 // c38
-    T 	 // c39
-	= // c40
-
-  '\x00'	// c41
-    }  // c42
- 
-")).
-Eval vm_compute in ("<<<M1294>>>" ++ check (runes_of_ascii "// top
-packet // c0a
+packet stringy {
+    repeat string len,
+    @calculatedFrom(""{,}"")
+    repeat o {
+        u64 float,
+    },
+    match i64_ as Pad {
+        [1] : roots,
+        ""it's"" : uint8x,
+        1 : MetaDataX,
+        [
+            255, ""a\""b"", """ ++ [233]%N ++ runes_of_ascii "t" ++ [233]%N ++ runes_of_ascii """, 65535, 4294967296,
+            7, 0123456789
+        ] : len,
+        255 : metadata,
+        ""it's"" : calculatedFrom,
+        // `tick` ""quote"" 'q'
+    },
+    @lengthOf(msg_type)
+    falsey @calculatedFrom(""" ++ [28040; 24687]%N ++ runes_of_ascii """),
+    repeat char[] trueish,
+    zchar[1] A,// `tick` ""quote"" 'q'
+    repeat metadata {
+        zchar[7] Pad,
+    },
+    @tag(3)
+    i32 body `u8 x,`,
+}// trailing space ")).
+Eval vm_compute in ("<<<M1491>>>" ++ check (runes_of_ascii "
+// top
+	  packet	// c0a
   // c0b
-A // c1
-{
-    // c2
-u8
-    // c3
-a // c4a
-  // c4b
-, } // c6a
-  // c6b
-packet // c7a
-  // c7b
-B // c8a
-  // c8b
-{ u16 // c10
-b // c11a
-  // c11b
-,
-    // c12
-}
-    // c13
-root // c14
-packet P // c16
-{ // c17a
-  // c17b
-u8 K1 // c19
-, // c20
-u8 // c21a
-  // c21b
-K2 // c22a
-  // c22b
-, // c23a
-  // c23b
-match // c24a
-  // c24b
-K1 as
-    // c26
-M1 // c27a
-  // c27b
-{ // c28a
-  // c28b
-1
-    // c29
-:
-    // c30
-A // c31
-, // c32a
-  // c32b
-} , match K2
-    // c36
-as
-    // c37
-M2 // c38
-{ 1 : // c41a
-  // c41b
+  A
+    {// c2a
+	// c2b
+	u8 	 // c3
+a  // c4a
+      // c4b
+	, // c5
+    }  // c6a
+    // c6b
+	packet 	 // c7
+
 B
-    // c42
-, } ,
-    // c45
-} // c46
-")).
-Eval vm_compute in ("<<<M1367>>>" ++ check (runes_of_ascii "options {
-    StringPrefixLenType = u8;
-    ArrayPrefixLenType = u8;
-    FixedStringPadFromLeft = false;
-    FixedStringPadChar = ' ';
-}
-packet Ack {
-    char[] tag7,
-}
-packet Reject {
-    InSym61 {
-        repeat Ack,
-        zchar[4] f1,
-    },
-}
-packet Logout {
-    char[4] clOrdID,
-}
-root packet Cancel {
-    @leftPad(' ') char[10] price,
-    u8 x,
-    u32 venue @lengthOf(Body),
-    match x as Body {
-        [92, 175] : Logout,
-        26 : Reject,
-        144 : Ack,
-    },
-    u16 count @calculatedFrom(""CRC32""),
-}
-")).
-Eval vm_compute in ("<<<M1235>>>" ++ check (runes_of_ascii "// top
-options
-    // c0
-{
-    // c1
-f32a
-    // c2
-=
-    // c3
-0
-    // c4
-}
-    // c5
-packet
-    // c6
-trueish
-    // c7
-{
-    // c8
-}
-    // c9
-MetaData
-    // c10
-_x
-    // c11
-{
-    // c12
-char[
-    // c13
-0123456789
-    // c14
-]
-    // c15
-zchar
-    // c16
-,
-    // c17
-string
-    // c18
-crc
-    // c19
-,
-    // c20
-char[
-    // c21
-1
-    // c22
-]
-    // c23
-options1
-    // c24
-,
-    // c25
-uint8
-    // c26
-repeatCount
-    // c27
-,
-    // c28
-}
-    // c29
-")).
-Eval vm_compute in ("<<<M1799>>>" ++ check (runes_of_ascii "packet int {
-    zchar[007] metadata,
-    i16 matchKey,
-    @rightPad('0')
-    @lengthOf(metadata)
-    repeat zchar[10] charz,
-}
-
-packet int {
-    @tag(65535)
-    u32 x @calculatedFrom(""x y""),
-    match pack as MetaDataX {
-        [""abc"", 0123456789, ""`tick`""] : body,
-    },
-    @lengthOf(zchar)
-    match leftPad as u8x {
-        10 : u8x,
-        [007, 255] : chars,
-        """" : body,
-        42 : trueish,
-    },
-}")).
-Eval vm_compute in ("<<<M292>>>" ++ check (runes_of_ascii "packet/// triple
-matchKey { float32 float,@calculatedFrom(""a\\""// " ++ [27880; 37322]%N ++ runes_of_ascii "
-) @rightPad
-( '\x00' )i16 tag  @calculatedFrom(""abc"" ) ,
-repeat zchar[255
-] pack
-    , @lengthOf( Z9_ ) tag , } // trailing space 
-root
-packet rootA { repeat metadata { Logon , }, @tag( 10)
-@lengthOf( A )
-@tag( 007)
-u32
-    options1, match float as u {0123456789 : u8x ,} ,	}// " ++ [27880; 37322]%N ++ runes_of_ascii "
-root packet lengthOf { }
-")).
-Eval vm_compute in ("<<<M1724>>>" ++ check (runes_of_ascii "// top
-root packet Frame {
-    u8 K,
-    // c6
-    Logon first,// c9
-    match K as Body {
-        // c14
-        1 : Logon,
-        // c18a
-        // c18b
-        2 : Logout,
-        // c22
-    },// c24a
-    // c24b
-}// c25a
-
-// c25b
-packet Logon {
-    string user,// c31
-}// c32
-
-packet Logout {
-    u16 reason,// c38a
-    // c38b
-}// c39a
-// c39b")).
-Eval vm_compute in ("<<<M1393>>>" ++ check (runes_of_ascii "packet As {
-    @leftPad()
-    char[0] Logon,
-    char[0] Z9_ @calculatedFrom(""abc""),
-    @tag(4294967296)
-    i64 matchKey @calculatedFrom(""// no comment"") `two words`,
-    i16 A,
-}// " ++ [27880; 37322]%N ++ runes_of_ascii "
-
-packet T {
-    zchar[3] tag @lengthOf(chars),
-}
-
-packet BodyLength {
-    calculatedFrom @lengthOf(body) `
-        `,
-}// a // b")).
-Eval vm_compute in ("<<<M89>>>" ++ check (runes_of_ascii "packet Foo // " ++ [128512]%N ++ runes_of_ascii " emoji
-{@lengthOf( f32a )
-char[
-0123456789 //	t
-] float `u8 x,` ,}
-    packet // a // b
-i64_ {@lengthOf(stringy // packet A { u8 x, }
-)
-    char[] int @calculatedFrom(""{,}"" ) ,@tag(
-007 ) //
-int64
-stringy`" ++ [233]%N ++ runes_of_ascii "` ,  char[]A @calculatedFrom(
-""\" ++ [233]%N ++ runes_of_ascii """
-    )	`doc` ,// " ++ [27880; 37322]%N ++ runes_of_ascii "
-}
-")).
-Eval vm_compute in ("<<<M254>>>" ++ check (runes_of_ascii "packet  zchar
-{ zchar[ 42
-//
-//
-]uint8x ,
-    match
-    A as
-As{
-    0: int
-    ,
-}
-, @tag(7 ) @calculatedFrom(
-""packet"" ) match
-i64_
-as metadata //	t
-{
-    ""CRC32"" :
-A , }
-,
-    // c
-    }	root
-packet
-uint8x {
-    char[ 00 ]	crc
-,// " ++ [128512]%N ++ runes_of_ascii " emoji
-} 	 ")).
-Eval vm_compute in ("<<<M358>>>" ++ check (runes_of_ascii "
-packet matchKey	{ // @lengthOf(
-@lengthOf(
-a1 ) string_
-T`" ++ [28040; 24687; 31867; 22411]%N ++ runes_of_ascii "`, //
-} packet body {f32 _x  , packetx @lengthOf(
-options1 ) // packet A { u8 x, }
-`` , @leftPad ( ' ') i16 crc ,@calculatedFrom(
-""" ++ [128512]%N ++ runes_of_ascii """
-)	Pad
-, } //")).
-Eval vm_compute in ("<<<M1311>>>" ++ check (runes_of_ascii "options {
-    FixedStringPadChar = '0';
-}
-packet Q {
-    zchar[4] z,
-    @rightPad('\x00') char[3] n,
-    char[5] d,
-}
-root packet R {
-    Q,
-    zchar[8] top,
-    repeat zchar[2] zs,
-}
-")).
-Eval vm_compute in ("<<<M1608>>>" ++ check (runes_of_ascii "
-MetaData
-    repeatCount 	 // c
-  {char[
-
-    42  // " ++ [27880; 37322]%N ++ runes_of_ascii "
-  	] 
-
-// " ++ [128512]%N ++ runes_of_ascii " emoji
-    MetaDataX , 
-        // @lengthOf(
-zchar[ 
-        // " ++ [27880; 37322]%N ++ runes_of_ascii "
-	//x
-      0	]
-    asx ,
-
-} ")).
-Eval vm_compute in ("<<<M1575>>>" ++ check (runes_of_ascii "
-MetaData
-    leftPad
-
+// c8
     {
-    chars MetaDataX 
-, } 
-    // c
-packet
-repeatCount
-{
-    char[
-	255 ]
-uint8x 
-`" ++ [233]%N ++ runes_of_ascii "`  ,
+	    // c9
+	  u16
 
-} MetaData
-pack{  As 
-Foo
-	,
+    b // c11
+    ,} 	 // c13a
+  // c13b
+      packet	// c14a
+
+	// c14b
+  C// c15
+    	{  // c16a
+	// c16b
+  u32 c	// c18
+
+  ,
+
     }
-")).
-Eval vm_compute in ("<<<M466>>>" ++ check (runes_of_ascii "packet uint8x
-{ match pack
-    as msg_type	{
-    0123456789 :	float
-}
-,
-} packet //	t
-a1 a1
-    { } options {packetx
-    = '\x00'	; u128= ""a	b""  ; }
-")).
-Eval vm_compute in ("<<<M463>>>" ++ check (runes_of_ascii "packet uint8x
-{ match pack
-    as msg_type	{
-    0123456789 :	float
-}
-,
-} float32 //	t
-a1
-    { } options {packetx
-    = '\x00'	; u128= ""a	b""  ; }
-")).
-Eval vm_compute in ("<<<M472>>>" ++ check (runes_of_ascii "packet uint8x
-{ match pack
-    as msg_type	{
-    0123456789 :	float
-}
-,
-} packet //	t
-a1
-    } { options {packetx
-    = '\x00'	; u128= ""a	b""  ; }
-")).
-Eval vm_compute in ("<<<M676>>>" ++ check (runes_of_ascii "// @lengthOf(
-packet i8i8 { u128 o , }
-options { MetaDataX = true;
-    BodyLength =""packet"" x_y_z x_y_z= 007
-crc //x
-= ""abc"" ;
-    msg_type =
-i16 }")).
-Eval vm_compute in ("<<<M440>>>" ++ check (runes_of_ascii "packet uint8x
-{ match pack
-    as msg_type	{
-    0123456789 :	
-}
-,
-} packet //	t
-a1
-    { } options {packetx
-    = '\x00'	; u128= ""a	b""  ; }
-")).
-Eval vm_compute in ("<<<M529>>>" ++ check (runes_of_ascii "packet uint8x
-{ match pack
-    as msg_type	{
-    0123456789 :	float
-}
-,
-} packet //	t
-a1
-    { } options {packetx
-    = '\x00'	; u128= ""a	b""")).
-Eval vm_compute in ("<<<M1260>>>" ++ check (runes_of_ascii "
+    // c20
+	root  // c21a
 
-  packet
+  // c21b
+  packet	M 
+    // c23
+	{// c24
+  u16 // c25
+Kc,// c27a
+  // c27b
+u16  // c28
+	Kb	// c29
+,  // c30a
 
-B
+// c30b
+  	u16 Ka  // c32a
+	// c32b
+	, 
+    // c33
+	match
+	Kc 
+    // c35
+		as
+// c36
+	X 	 // c37
+
+	{
+9 
+	// c39
+
+: A  // c41
+,
+
+    10 // c43
+:  // c44
+		B // c45
+  , 
+    // c46
+  }
+    , 	 // c48a
+  // c48b
+	match	// c49
+  Kb  // c50a
+  // c50b
+as // c51
+Y	// c52a
+  // c52b
+
+  { 2// c54
+:
+
+C , // c57a
+	// c57b
+  	1  // c58a
+		// c58b
+
+	:	// c59a
+  	// c59b
+  A
+,
+// c61
+      } 
+	    // c62
+
+  ,	// c63a
+// c63b
+	match
+    // c64
+Ka // c65
+	as
+    Z 	 // c67a
+    // c67b
+
+{
+    // c68
+  1  // c69
+: 	 // c70
+  B 	 // c71a
+
+// c71b
+  ,	// c72a
+		// c72b
+  }// c73
+, // c74a
+      // c74b
+A  // c75a
+
+// c75b
+,	// c76
+	  B// c77
+
+	, // c78a
+  	// c78b
+    C ,  // c80a
+// c80b
+  	} // c81
+")).
+Eval vm_compute in ("<<<M76>>>" ++ check (runes_of_ascii "packet rootA{
+@lengthOf( a1 ) f32a
+@lengthOf( Header )
+    `// not a comment` ,match  T as
+    i64_
+{42: // packet A { u8 x, }
+string_,	}, match// trailing space 
+stringy
+as Header {[	65535]: msg_type , ""it's""	:u
+// " ++ [128512]%N ++ runes_of_ascii " emoji
+// " ++ [27880; 37322]%N ++ runes_of_ascii "
+,
+    ""\n""
+: lengthOf // `tick` ""quote"" 'q'
+} , @tag(
+    42 )
+    repeat
+zchar f32a `u8 x,` ,@tag( 255
+) //
+repeat //	t
+Pad {  x T
+,
+}
+    , @calculatedFrom(  ""{,}""
+    /// triple
+    )
+repeat leftPad
     {
-
-u8
-	a
-
-,
-    }root
-packet
-P{ u8 K  , u8
-
-L @lengthOf(
-	Body )
-,  match
-
-K
-    as Body
+    //	t
+    u64 u8x `" ++ [28040; 24687; 31867; 22411]%N ++ runes_of_ascii "`
+,len @calculatedFrom(""\" ++ [233]%N ++ runes_of_ascii """ )
+    , zchar[	4294967296 ] // " ++ [27880; 37322]%N ++ runes_of_ascii "
+falsey,}
+    , @tag(
+    7
+)match i8i8 as
+    pack{ 3	: string_ 0123456789
+:packetx
+,[42 ] : tag ,""\n"" : a1 , [ 0123456789	,
+    1 ]	:
+    x_y_z 0:
+float }
+    ,  repeat
+u128 As , }	options { packetx=
+    """ ++ [128512]%N ++ runes_of_ascii """; msg_type = ' '
+; Packet// 50% %s
+=10;
+    }
+    // a // b
+    packet Pad//
 {
-
-    1  :  B
-	,  },
-    } ")).
-Eval vm_compute in ("<<<M649>>>" ++ check (runes_of_ascii "// @lengthOf(
-packet i8i8 { u128 o , }
-options {  = true;
-    BodyLength =""packet"" x_y_z= 007
-crc //x
-= ""abc"" ;
-    msg_type =
-i16 }")).
-Eval vm_compute in ("<<<M1958>>>" ++ check (runes_of_ascii "
-
-  packet A
-{
-	u16
-len
-
-    @lengthOf(
-	body) `a
-b`
-
-,
-
-u32
-	crc 
-@calculatedFrom(
-""CRC32"" 
-) 
-`a
-b`	,	string
-body
-    ,}
+    // " ++ [27880; 37322]%N ++ runes_of_ascii "
+    char[] pack ,	repeat float32
+falsey  ,char[42
+]	Z9_ , Logon  @lengthOf( i8i8
+)
+    `
+`	,
+tag{	x , i32 float @lengthOf( crc
+    ) , } , }
 ")).
-Eval vm_compute in ("<<<M34>>>" ++ check (runes_of_ascii "options {
-Logon = 0 } options { msg_type = 3
-    MetaDataX =
-    // " ++ [128512]%N ++ runes_of_ascii " emoji
-    int8
-    uint8x=""""
-    ;
-    As = '0' }")).
-Eval vm_compute in ("<<<M1162>>>" ++ check (runes_of_ascii "MetaData leftPad { chars MetaDataX , } packet repeatCount {
-// c
-char[ 255 ] uint8x `" ++ [233]%N ++ runes_of_ascii "` , } MetaData pack { As Foo , }")).
-Eval vm_compute in ("<<<M938>>>" ++ check (runes_of_ascii "packet A {
-    Inner {
-        u8 x `a
-    b
-  c`,
-        Deep {
-            u8 y `a
-    b
-  c`,
+Eval vm_compute in ("<<<M1421>>>" ++ check (runes_of_ascii "
+MetaData 
+len 
+{ float 
+roots`u8 x,`, u32
+int  `" ++ [233]%N ++ runes_of_ascii "` ,
+    }root
+
+    packet 
+x {@tag(
+
+1 
+)repeat
+charz
+,
+Pad
+@calculatedFrom( """ ++ [233]%N ++ runes_of_ascii "t" ++ [233]%N ++ runes_of_ascii """
+
+)
+
+    ,match	int
+	as	u8x{//x
+  0:leftPad
+
+    ,
+
+    [ 1
+,
+	0123456789
+,
+
+10
+	]
+
+    :
+    uint8x
+	}  ,
+@leftPad (
+	)	/// triple
+repeat
+
+u128
+	{ f64
+_x	`two words`, 
+T 
+@calculatedFrom(
+
+""\n"" )`u8 x,` 
+	/// triple
+    ,
+match
+	A as
+crc 
+{ 3
+
+:
+
+    // a // b
+leftPad
+,
+	""" ++ [128512]%N ++ runes_of_ascii """:falsey ,	[
+""" ++ [233]%N ++ runes_of_ascii "t" ++ [233]%N ++ runes_of_ascii """
+    ,4294967296 ,
+
+    """ ++ [28040; 24687]%N ++ runes_of_ascii """	, ""a	b"" ,
+00	// a // b
+
+, 
+""" ++ [233]%N ++ runes_of_ascii "t" ++ [233]%N ++ runes_of_ascii """ ] 
+:
+    rootA
+,
+	""1""
+:MetaDataX,
+	} ,  f32	o 
+@calculatedFrom(  ""// no comment""
+) `// not a comment`
+, // a // b
+	  }  , chars	@calculatedFrom(
+""{,}""
+	) , 
+@rightPad  (' ' )
+
+@tag( 0 )
+
+    repeat BodyLength
+`` ,
+
+body 
+, }MetaData
+	T	{
+
+    len i8i8  ,
+    }	options	{
+f32a
+
+    =true
+    }
+    packet
+    falsey{
+
+}
+")).
+Eval vm_compute in ("<<<M1332>>>" ++ check (runes_of_ascii "packet P1 // c1a
+  // c1b
+{ // c2
+u8 // c3a
+  // c3b
+a
+    // c4
+, }
+    // c6
+packet
+    // c7
+P2
+    // c8
+{ P1 // c10
+, // c11a
+  // c11b
+}
+    // c12
+packet
+    // c13
+P3 { // c15
+P2 , // c17a
+  // c17b
+P1
+    // c18
+, // c19a
+  // c19b
+}
+    // c20
+packet P4 { // c23a
+  // c23b
+repeat P3 , // c26
+P2 // c27a
+  // c27b
+, // c28
+} root // c30a
+  // c30b
+packet // c31
+P5 { P4
+    // c34
+,
+    // c35
+P3
+    // c36
+, // c37a
+  // c37b
+P1 // c38a
+  // c38b
+, u8 K // c41a
+  // c41b
+,
+    // c42
+match
+    // c43
+K // c44
+as Body {
+    // c47
+4 // c48
+: // c49
+P4 , // c51
+3 :
+    // c53
+P3 ,
+    // c55
+2 // c56a
+  // c56b
+:
+    // c57
+P2
+    // c58
+,
+    // c59
+1 // c60
+: // c61
+P1 // c62
+, } , } ")).
+Eval vm_compute in ("<<<M70>>>" ++ check (runes_of_ascii "packet  u128
+{
+    string a1 ,x ,
+    @calculatedFrom( ""\n""
+)
+    @tag( 0 ) @tag(42 ) i8 Packet @calculatedFrom( ""a	b"" // @lengthOf(
+) `a\`	, @calculatedFrom(
+    ""\n""// @lengthOf(
+)
+repeat string uint8x `{ , }` , char[] string_ , } packet repeatCount {  @leftPad ( '\x00'
+) o @calculatedFrom(""abc"" ) `u8 x,` ,  char[ 1]
+    repeatCount	,
+    char[] x , @tag( 007
+)
+    repeat i16
+u8x `a\`, @lengthOf( u ) repeat uint16 u128 , repeat uint8 repeatCount ,repeat stringy {char[ 10 ] options1,int `doc`
+,}
+, } MetaData BodyLength {i64 // " ++ [27880; 37322]%N ++ runes_of_ascii "
+x_y_z
+    `" ++ [233]%N ++ runes_of_ascii "`,u64 x `
+`
+, asx asx,char[ 3
+    ]
+leftPad , }
+MetaData zchar //	t
+{}
+")).
+Eval vm_compute in ("<<<M1937>>>" ++ check (runes_of_ascii "options {
+    i64_ = ' ';
+    As = ""x y""
+    _x = f64
+}
+
+packet asx {
+    string i8i8,
+}// 50% %s
+
+packet float {
+    // 50% %s
+    repeat char[1] trueish,
+    body @lengthOf(string_) `two words`,
+    @calculatedFrom(""CRC32"")
+    i8 u @lengthOf(uint8x),
+    // trailing space 
+    @leftPad()
+    repeat uint8x ``,
+    body tag `tab	here`,
+    string chars `tab	here`,
+    @tag(0)
+    asx,
+}// `tick` ""quote"" 'q'
+
+root packet u128 {
+}
+
+MetaData x_y_z {
+    int32 u128,
+    len calculatedFrom,
+    char[0] _x `a\`,
+    zchar[1] x,
+    string MetaDataX `{ , }`,
+}")).
+Eval vm_compute in ("<<<M156>>>" ++ check (runes_of_ascii "  MetaData
+T { char[ 0123456789 ] rootA
+`line1
+line2` , i32	Logon
+,rootA
+asx ,} root/// triple
+packet
+    Header { uint32
+len
+    @lengthOf( u ) `
+` , repeat
+    char MetaDataX/// triple
+`" ++ [28040; 24687; 31867; 22411]%N ++ runes_of_ascii "` ,
+    uint8x @lengthOf( zchar) // @lengthOf(
+`u8 x,`
+// " ++ [27880; 37322]%N ++ runes_of_ascii "
+// packet A { u8 x, }
+, uint8
+Z9_,
+    @lengthOf( u128 ) @lengthOf(
+MetaDataX )
+@tag( 0123456789
+) Logon @lengthOf(
+    /// triple
+    body ),	}  options { Z9_
+= uint32; options1 = '\x00' } options {Foo  = ""// no comment"" ; }
+packet
+    float
+{
+}")).
+Eval vm_compute in ("<<<M1378>>>" ++ check (runes_of_ascii "options{ArrayPrefixLenType= 
+u64  ;  FixedStringPadFromLeft
+    = 
+true
+
+;
+
+FixedStringPadChar
+=
+'0'
+
+    ;}
+
+    packet 
+Order {	}root
+    packet Leg  {
+
+char[]
+Ref ,repeat  Order  ,
+f32 Acct  ,
+@leftPad (  '0'
+    )
+    char[ 10
+
+]  venue
+    ,	@rightPad (
+	'0' )	char[3
+    ]
+
+seqNo
+, repeat
+u64 Px ,u8
+
+Flags
+    ,	u32
+
+    lastPx	@lengthOf(Body
+	) 
+,
+	match 
+Flags  as
+    Body	{ 185
+    :
+    Order
+
+, }
+
+,
+u16
+	sym
+
+@calculatedFrom(  ""CRC32""	)  ,
+} ")).
+Eval vm_compute in ("<<<M1517>>>" ++ check (runes_of_ascii "packet repeatCount {
+    @tag(7)
+    match T as i64_ {
+        """ ++ [233]%N ++ runes_of_ascii "t" ++ [233]%N ++ runes_of_ascii """ : body,
+    },
+    @lengthOf(crc)
+    float64 body `u8 x,`,
+    repeat rootA {
+        int16 x_y_z `two words`,
+        zchar[4294967296] trueish `two words`,
+        Pad @lengthOf(Pad) `// not a comment`,
+    },
+    tag string_,
+    @lengthOf(len)
+    // packet A { u8 x, }
+    @tag(255)
+    @lengthOf(Logon)
+    int,
+    Foo @lengthOf(leftPad) `
+        `,
+}")).
+Eval vm_compute in ("<<<M368>>>" ++ check (runes_of_ascii "root packet a1 {i8 A @calculatedFrom( //
+""\" ++ [233]%N ++ runes_of_ascii """ )
+, @lengthOf( int ) @lengthOf(  len) @lengthOf( f32a )
+string
+u8x `say ""hi""`
+//	t
+// " ++ [128512]%N ++ runes_of_ascii " emoji
+, char[
+    00 ]  As@lengthOf(  Z9_ )
+, repeat leftPad ,  repeat  x_y_z
+, @rightPad( '0') f64 lengthOf @calculatedFrom( ""`tick`"" ) `100% of %d`// " ++ [27880; 37322]%N ++ runes_of_ascii "
+, repeat char  Foo// " ++ [27880; 37322]%N ++ runes_of_ascii "
+, match msg_type as x_y_z
+    { [ 255 , 7  ,10 ,
+""a	b""
+] : Foo,
+    // a // b
+    } ,
+}
+")).
+Eval vm_compute in ("<<<M195>>>" ++ check (runes_of_ascii "root // 50% %s
+packet u128 {
+    a1
+    @calculatedFrom(""a\""b"" ) , }
+root packet pack { BodyLength @calculatedFrom(
+    ""{,}""
+)
+    `// not a comment` ,//x
+uint8x , i64 rootA, @lengthOf( BodyLength )	string
+zchar
+    , // " ++ [128512]%N ++ runes_of_ascii " emoji
+} packet _x	{ @tag( 7 ) match // @lengthOf(
+trueish
+    as packetx { 10
+: Header ,7 : trueish ""a\""b"" :
+// @lengthOf(
+// " ++ [27880; 37322]%N ++ runes_of_ascii "
+pack ,}, }")).
+Eval vm_compute in ("<<<M1828>>>" ++ check (runes_of_ascii "root packet i8i8 {
+    msg_type @lengthOf(asx),
+    Logon {
+        msg_type {
+            repeat x_y_z `say ""hi""`,
         },
     },
+    Z9_,
+    repeatCount {
+        char[] asx,
+        // " ++ [128512]%N ++ runes_of_ascii " emoji
+        float32 options1,
+        repeat uint64 x `two words`,
+        chars ``,
+    },
+    // 50% %s
+    // 50% %s
+    repeat A float,
 }")).
-Eval vm_compute in ("<<<M494>>>" ++ check (runes_of_ascii "packet uint8x
-{ match pack
-    as msg_type	{
-    0123456789 :	float
-}
-,
-} packet //	t
-a1
-    { } options {")).
-Eval vm_compute in ("<<<M1397>>>" ++ check (runes_of_ascii "MetaData 
-leftPad 
-{	/// triple
-  char[] body 
-, As options1  
-  //
-    /// triple
-
-,o
-//x
-
-i64_ ,
-	} ")).
-Eval vm_compute in ("<<<M1248>>>" ++ check (runes_of_ascii "  options
-{LittleEndian 
-= true 
-; }
-
-    root  packet
-
-P {
-
-    repeat
-char
-cs
-
-, u8
-	x, }
-
-")).
-Eval vm_compute in ("<<<M568>>>" ++ check (runes_of_ascii "
-packet
-    asx {match match u128 as lengthOf
-{
-//	t
-// `tick` ""quote"" 'q'
-255 : x ,
-    } ,	}")).
-Eval vm_compute in ("<<<M1577>>>" ++ check (runes_of_ascii "  packet A {
-
-match
-    k
-as n { 
-[
-1
-
-    , 
-22 ,
-	007 ,4 ]:
-    B 2
-	:
-
-    C
-
-}
-	, }")).
-Eval vm_compute in ("<<<M637>>>" ++ check (runes_of_ascii "
-~packet
-    asx {match u128 as lengthOf
-{
-//	t
-// `tick` ""quote"" 'q'
-255 : x ,
-    } ,	}")).
-Eval vm_compute in ("<<<M575>>>" ++ check (runes_of_ascii "
-packet
-    asx {match u64 as lengthOf
-{
-//	t
-// `tick` ""quote"" 'q'
-255 : x ,
-    } ,	}")).
-Eval vm_compute in ("<<<M572>>>" ++ check (runes_of_ascii "
-packet
-    asx {match  as lengthOf
-{
-//	t
-// `tick` ""quote"" 'q'
-255 : x ,
-    } ,	}")).
-Eval vm_compute in ("<<<M1571>>>" ++ check (runes_of_ascii "packet
-
-A{
-
-    Inner
-{ 
-u8	x
+Eval vm_compute in ("<<<M40>>>" ++ check (runes_of_ascii "packet
+    len { // " ++ [27880; 37322]%N ++ runes_of_ascii "
+@leftPad( '0'
+    ) // trailing space 
+Logon @lengthOf( _x)
+`100% of %d`
+,char
+    rootA
+, @calculatedFrom( """ ++ [28040; 24687]%N ++ runes_of_ascii """ )
+@leftPad
+    (' ' ) // `tick` ""quote"" 'q'
+i8
+crc , msg_type
+@calculatedFrom( """"	)
 `
-x`
-
-    , Deep 
+`
+, // `tick` ""quote"" 'q'
+}	options//x
+{}
+options { u8x =true }
+")).
+Eval vm_compute in ("<<<M193>>>" ++ check (runes_of_ascii "// " ++ [27880; 37322]%N ++ runes_of_ascii "
+packet	Header {
+    @tag(
+    // @lengthOf(
+    00
+)
+    u32
+charz @lengthOf( f32a
+)`" ++ [233]%N ++ runes_of_ascii "`, int32 Pad`doc`,
+@leftPad
+    (  '\x00'
+    // " ++ [27880; 37322]%N ++ runes_of_ascii "
+    ) BodyLength T `" ++ [233]%N ++ runes_of_ascii "`
+, }
+packet
+    stringy
 {
-
-u8  y `
-x`	,	} 
-,} 
-,  }
+    /// triple
+    msg_type
+// " ++ [27880; 37322]%N ++ runes_of_ascii "
+// " ++ [27880; 37322]%N ++ runes_of_ascii "
+,}MetaData f32a
+{ } // " ++ [128512]%N ++ runes_of_ascii " emoji")).
+Eval vm_compute in ("<<<M388>>>" ++ check (runes_of_ascii "packet packet
+    asx { @calculatedFrom(
+""""  ) @tag( 255 )repeat
+// packet A { u8 x, }
+// trailing space 
+int16 u8x
+,
+@tag(
+    //
+    007 )
+    @tag( 0
+    /// triple
+    ) @tag( 1) u
+    @lengthOf( T ),
+// `tick` ""quote"" 'q'
+//x
+} // " ++ [128512]%N ++ runes_of_ascii " emoji")).
+Eval vm_compute in ("<<<M462>>>" ++ check (runes_of_ascii "packet
+    asx { @calculatedFrom(
+""""  ) @tag( 255 )repeat
+// packet A { u8 x, }
+// trailing space 
+int16 u8x
+,
+@tag(
+    //
+    007 ) )
+    @tag( 0
+    /// triple
+    ) @tag( 1) u
+    @lengthOf( T ),
+// `tick` ""quote"" 'q'
+//x
+} // " ++ [128512]%N ++ runes_of_ascii " emoji")).
+Eval vm_compute in ("<<<M413>>>" ++ check (runes_of_ascii "packet
+    asx { @calculatedFrom(
+""""  @tag( ) 255 )repeat
+// packet A { u8 x, }
+// trailing space 
+int16 u8x
+,
+@tag(
+    //
+    007 )
+    @tag( 0
+    /// triple
+    ) @tag( 1) u
+    @lengthOf( T ),
+// `tick` ""quote"" 'q'
+//x
+} // " ++ [128512]%N ++ runes_of_ascii " emoji")).
+Eval vm_compute in ("<<<M112>>>" ++ check (runes_of_ascii "packet
+    options1 { @calculatedFrom( """" )@rightPad
+    ( '\x00'	) char[007] msg_type ,	i64 Header
+`" ++ [233]%N ++ runes_of_ascii "` ,
+    //	t
+    @calculatedFrom( ""packet"" )  @calculatedFrom( ""`tick`"" ) @calculatedFrom( ""a	b"" )
+    i32 options1 @lengthOf(Pad )  ,}
 ")).
-Eval vm_compute in ("<<<M1890>>>" ++ check (runes_of_ascii "packet Inner {
+Eval vm_compute in ("<<<M431>>>" ++ check (runes_of_ascii "packet
+    asx { @calculatedFrom(
+""""  ) @tag( 255 )
+// packet A { u8 x, }
+// trailing space 
+int16 u8x
+,
+@tag(
+    //
+    007 )
+    @tag( 0
+    /// triple
+    ) @tag( 1) u
+    @lengthOf( T ),
+// `tick` ""quote"" 'q'
+//x
+} // " ++ [128512]%N ++ runes_of_ascii " emoji")).
+Eval vm_compute in ("<<<M1904>>>" ++ check (runes_of_ascii "packet Logon {
+    @calculatedFrom(""{,}"")
+    repeat int64 Packet,
+    @tag(42)
+    char[] MetaDataX `doc`,
+}
+
+MetaData Packet {
+    string msg_type,
+    Logon calculatedFrom,
+    f32a matchKey,
+    zchar[0] _x,
+}")).
+Eval vm_compute in ("<<<M111>>>" ++ check (runes_of_ascii "
+MetaData
+_x
+{Z9_ MetaDataX
+// trailing space 
+// @lengthOf(
+, char[]_x`u8 x,`,
+} packet charz {
+//x
+// " ++ [128512]%N ++ runes_of_ascii " emoji
+@tag(
+65535 ) string_ chars , asx
+    //
+    @lengthOf( u128
+    )
+, } 	 ")).
+Eval vm_compute in ("<<<M657>>>" ++ check (runes_of_ascii "MetaData u
+    { } MetaData o
+{ float uint8x
+`100% of %d` ,repeatCount u8x, string_ leftPad
+, i32
+    Foo , int64 x `two words` `two words` , calculatedFrom
+stringy `a\` ,
+}
+")).
+Eval vm_compute in ("<<<M719>>>" ++ check (runes_of_ascii "packet
+crc
+{repeat  Foo A  `u8 x,` ,	@lengthOf( uint8x ) string
+matchKey @lengthOf( stringy ) `a\`
+,
+    // c
+    } }
+MetaData chars{
+leftPad
+    //	t
+    crc
+`" ++ [233]%N ++ runes_of_ascii "`
+,}")).
+Eval vm_compute in ("<<<M692>>>" ++ check (runes_of_ascii "MetaData u
+    { } MetaData o
+{ float " ++ [8232]%N ++ runes_of_ascii " uint8x
+`100% of %d` ,repeatCount u8x, string_ leftPad
+, i32
+    Foo , int64 x `two words` , calculatedFrom
+stringy `a\` ,
+}
+")).
+Eval vm_compute in ("<<<M598>>>" ++ check (runes_of_ascii "MetaData u
+    { } MetaData o
+{ float uint8x
+`100% of %d` repeatCount, u8x, string_ leftPad
+, i32
+    Foo , int64 x `two words` , calculatedFrom
+stringy `a\` ,
+}
+")).
+Eval vm_compute in ("<<<M626>>>" ++ check (runes_of_ascii "MetaData u
+    { } MetaData o
+{ float uint8x
+`100% of %d` ,repeatCount u8x, string_ leftPad
+ i32
+    Foo , int64 x `two words` , calculatedFrom
+stringy `a\` ,
+}
+")).
+Eval vm_compute in ("<<<M366>>>" ++ check (runes_of_ascii "packet  T
+    { @calculatedFrom( ""1"" /// triple
+)@tag( 0
+    ) crc {
+int16 falsey
+,/// triple
+int64
+i8i8 , }	,
+    Header , trueish
+, }
+// packet A { u8 x, }
+")).
+Eval vm_compute in ("<<<M669>>>" ++ check (runes_of_ascii "MetaData u
+    { } MetaData o
+{ float uint8x
+`100% of %d` ,repeatCount u8x, string_ leftPad
+, i32
+    Foo , int64 x `two words` , :
+stringy `a\` ,
+}
+")).
+Eval vm_compute in ("<<<M718>>>" ++ check (runes_of_ascii "packet
+crc
+{repeat  Foo A  `u8 x,` ,	@lengthOf( uint8x ) string
+matchKey @lengthOf( stringy ) `a\`
+,
+    // c
+    }
+MetaData chars{
+leftPad")).
+Eval vm_compute in ("<<<M1948>>>" ++ check (runes_of_ascii "packet len {
+    // " ++ [128512]%N ++ runes_of_ascii " emoji
+    Pad,
+    @tag(4294967296)
+    @calculatedFrom(""{,}"")
+    char[0123456789] o @calculatedFrom(""it's""),
+}")).
+Eval vm_compute in ("<<<M1964>>>" ++ check (runes_of_ascii "
+packet
+trueish
+    {  @leftPad  ( 
+' '
+	) 
+@lengthOf(
+	A
+    ) 	 // c
+	@lengthOf(
+    A
+)
+    string
+
+    msg_type	, 
+}")).
+Eval vm_compute in ("<<<M655>>>" ++ check (runes_of_ascii "MetaData u
+    { } MetaData o
+{ float uint8x
+`100% of %d` ,repeatCount u8x, string_ leftPad
+, i32
+    Foo , int64")).
+Eval vm_compute in ("<<<M1221>>>" ++ check (runes_of_ascii "options { } options { MetaDataX = char ; } // c
+MetaData Pad { i8 metadata , string stringy , int8 As `{ , }` , }")).
+Eval vm_compute in ("<<<M455>>>" ++ check (runes_of_ascii "packet
+    asx { @calculatedFrom(
+""""  ) @tag( 255 )repeat
+// packet A { u8 x, }
+// trailing space 
+int16 u8x
+,")).
+Eval vm_compute in ("<<<M1921>>>" ++ check (runes_of_ascii "
+MetaData  calculatedFrom{ x
+
+    float
+    ,
+    //x
+    //	t
+	T lengthOf	,	}
+    root  packet Pad
+{
+}")).
+Eval vm_compute in ("<<<M1611>>>" ++ check (runes_of_ascii "options {
+    Foo = 00;
+    Header = false
+    calculatedFrom = true;
+}
+
+root packet int {
+    len,
+}")).
+Eval vm_compute in ("<<<M197>>>" ++ check (runes_of_ascii "packet u128	{ }  packet
+_x /// triple
+{ } MetaData T  {
+    u128 f32a
+    // c
+    ,} options{}
+")).
+Eval vm_compute in ("<<<M630>>>" ++ check (runes_of_ascii "MetaData u
+    { } MetaData o
+{ float uint8x
+`100% of %d` ,repeatCount u8x, string_ leftPad")).
+Eval vm_compute in ("<<<M1967>>>" ++ check (runes_of_ascii "packet A {
+    match k as n {
+        [""a"", ""bb"", 007, ""d""] : B,
+        2 : C,
+    },
+}")).
+Eval vm_compute in ("<<<M1414>>>" ++ check (runes_of_ascii "packet order_item {
     u8 a,
 }
 
-root packet P {
-    repeat Inner items,
+root packet new_order {
+    order_item,
     u8 x,
 }")).
-Eval vm_compute in ("<<<M1249>>>" ++ check (runes_of_ascii "packet Inner {
-    u8 a,
-}
-root packet P {
-    Inner ref_obj,
-    u8 x,
-}
-")).
-Eval vm_compute in ("<<<M877>>>" ++ check (runes_of_ascii "packet A { Inner { match k as n { [1,22,007,4,5,66,7,8,9] : B, }, }, }")).
-Eval vm_compute in ("<<<M1687>>>" ++ check (runes_of_ascii "root packet P {
-    u8 s_u8,
-    repeat u8 r_u8,
-    u16 b_len,
-}")).
-Eval vm_compute in ("<<<M1848>>>" ++ check (runes_of_ascii "
+Eval vm_compute in ("<<<M1113>>>" ++ check (runes_of_ascii "packet A { u16 // a
+ len // b
+ @lengthOf( // c
+ body // d
+ ) // e
+ `d` // f
+ , }")).
+Eval vm_compute in ("<<<M615>>>" ++ check (runes_of_ascii "MetaData u
+    { } MetaData o
+{ float uint8x
+`100% of %d` ,repeatCount u8x")).
+Eval vm_compute in ("<<<M1830>>>" ++ check (runes_of_ascii "
 options
-{ 
-a1
+	{
+}packet
 
-=
-    ""packet""	// a // b
-; }	// @lengthOf(
+    Foo
+	{ 
+    // 50% %s
+	// @lengthOf(
+	}
+
 ")).
-Eval vm_compute in ("<<<M774>>>" ++ check (runes_of_ascii "packet A {
-  match k as n {
-    [1] : B
-    2 : C
-  },
+Eval vm_compute in ("<<<M862>>>" ++ check (runes_of_ascii "packet A { Inner { match k as n { [1,22,007,4,5,66,7,8] : B, }, }, }")).
+Eval vm_compute in ("<<<M1693>>>" ++ check (runes_of_ascii "MetaData M {
+    u8 x `a
+    
+    b`,
+    T t `a
+    
+    b`,
 }")).
-Eval vm_compute in ("<<<M1202>>>" ++ check (runes_of_ascii "packet body
+Eval vm_compute in ("<<<M600>>>" ++ check (runes_of_ascii "MetaData u
+    { } MetaData o
+{ float uint8x
+`100% of %d`")).
+Eval vm_compute in ("<<<M1673>>>" ++ check (runes_of_ascii "// a
+MetaData M {
+}// b
+
 // c
-{ i32 f32a `{ , }` , } options { }")).
-Eval vm_compute in ("<<<M1073>>>" ++ check (runes_of_ascii "packet A {} packet B {} MetaData M {} options {}")).
-Eval vm_compute in ("<<<M212>>>" ++ check (runes_of_ascii "packet
-    MetaDataX {i16 u128`" ++ [233]%N ++ runes_of_ascii "` , //x
+MetaData N {
+}// d
+// e")).
+Eval vm_compute in ("<<<M20>>>" ++ check (runes_of_ascii "options	{ Logon = """ ++ [28040; 24687]%N ++ runes_of_ascii """
+; BodyLength= false ; }")).
+Eval vm_compute in ("<<<M1760>>>" ++ check (runes_of_ascii "root packet A {
+    u8 x `a
+        b`,
 }")).
-Eval vm_compute in ("<<<M1096>>>" ++ check (runes_of_ascii "packet A { u8 x,// a
+Eval vm_compute in ("<<<M1710>>>" ++ check (runes_of_ascii "
 
+  options
 
-// b
+    {	Z9_ 
+=""abc"" ; } ")).
+Eval vm_compute in ("<<<M1418>>>" ++ check (runes_of_ascii "
+root
 
- u8 y, }")).
-Eval vm_compute in ("<<<M1090>>>" ++ check (runes_of_ascii "packet A { @tag( // a
- 1 ) u8 x, }")).
-Eval vm_compute in ("<<<M1535>>>" ++ check (runes_of_ascii "packet 
-A{
-
-    } 
-  // c" ++ [8232]%N ++ runes_of_ascii "
- 
-")).
-Eval vm_compute in ("<<<M1797>>>" ++ check (runes_of_ascii "  MetaData  tag	// c
-  { }
-
-")).
-Eval vm_compute in ("<<<M1866>>>" ++ check (runes_of_ascii "options  { } 	 // " ++ [128512]%N ++ runes_of_ascii " emoji")).
-Eval vm_compute in ("<<<M295>>>" ++ check (runes_of_ascii "root  packet
-u128 { }")).
-Eval vm_compute in ("<<<M1133>>>" ++ check (runes_of_ascii "MetaData u
+packet 
+      // c
+	a1
+{	}")).
+Eval vm_compute in ("<<<M1425>>>" ++ check (runes_of_ascii "packet A {
+    u8 x `d" ++ [8239]%N ++ runes_of_ascii "`,// c" ++ [8239]%N ++ runes_of_ascii "
+}")).
+Eval vm_compute in ("<<<M1057>>>" ++ check (runes_of_ascii "packet A {
+ u8 x `d" ++ [12]%N ++ runes_of_ascii "`, // c" ++ [12]%N ++ runes_of_ascii "
+}")).
+Eval vm_compute in ("<<<M765>>>" ++ check (runes_of_ascii "@tag( f64 u8 u16 i64 ""a\\""")).
+Eval vm_compute in ("<<<M1148>>>" ++ check (runes_of_ascii "root packet a1
 // c
 { }")).
-Eval vm_compute in ("<<<M1027>>>" ++ check (runes_of_ascii "// c" ++ [8287]%N ++ runes_of_ascii "
+Eval vm_compute in ("<<<M1863>>>" ++ check (runes_of_ascii "packet
+Packet { }
+
+")).
+Eval vm_compute in ("<<<M1056>>>" ++ check (runes_of_ascii "// c" ++ [12]%N ++ runes_of_ascii "
 packet A {
 }")).
-Eval vm_compute in ("<<<M1014>>>" ++ check (runes_of_ascii "packet A {
-}// c" ++ [8233]%N)).
-Eval vm_compute in ("<<<M1812>>>" ++ check (runes_of_ascii "packet f32a {
-}")).
-Eval vm_compute in ("<<<M1060>>>" ++ check (runes_of_ascii "// c x")).
-Eval vm_compute in ("<<<M86>>>" ++ check (runes_of_ascii "  ")).
+Eval vm_compute in ("<<<M1068>>>" ++ check (runes_of_ascii "packet A {
+}// c" ++ [65279]%N)).
+Eval vm_compute in ("<<<M240>>>" ++ check (runes_of_ascii "/// triple
+
+")).
+Eval vm_compute in ("<<<M1039>>>" ++ check (runes_of_ascii "// c" ++ [8239]%N)).
